@@ -10,6 +10,13 @@ except ImportError:
                            "/opt/veriftools/wheels", "hypothesis"])
 import hypothesis
 print("hypothesis", hypothesis.__version__)
+# atheris (thorough tier of C11/C19) goes into /verif/.deps, beside the repository's packages
+DEPS = os.path.join(ROOT, ".deps")
+if not os.path.isdir(os.path.join(DEPS, "atheris")):
+    r = subprocess.run([sys.executable, "-m", "pip", "install", "--no-index", "--find-links",
+                        "/opt/veriftools/wheels", "--target", DEPS, "--no-deps", "atheris"],
+                       capture_output=True, text=True)
+    print("atheris install:", "ok" if r.returncode == 0 else "FAILED (fuzz tier will report inconclusive)\n" + r.stderr[-400:])
 sys.path.insert(0, "/repo/src"); sys.path.insert(0, ROOT)
 from vlib import harness
 harness.assert_tree()
